@@ -26,6 +26,38 @@ def run(fx, rep, tier):
     rule_repkey(fx, rep)
     rule_callers(fx, rep)
     rule_clock(fx, rep)
+    rule_history(fx, rep)
+
+
+def rule_history(fx, rep, rid="C11-HISTORY"):
+    """The search runs on copies of the position (the go handler and search() clone it). The repetition test reads `history`, so a
+    copy must carry it - and every other field - over unchanged: each field of the Game built by `<Game as Clone>::clone` is the
+    clone / copy of the same field of `self`."""
+    cl = [b for b in fx.bodies.values() if "chess::game::Game as std::clone::Clone>::clone" in b.name and b.kind != "Closure"]
+    if len(cl) != 1:
+        rep.notes.append(f"{rid}: no single Clone impl for Game; clause not decided")
+        rep.rule(rid, 0, 0, True, "not decided")
+        return
+    b = cl[0]
+    ok = True
+    n = 0
+    aggs = [(bb, st) for bb, j, st in b.stmts() if st["k"] == "assign" and st["rv"]["k"] == "agg" and st["rv"].get("agg") == "adt" and norm(st["rv"]["adt"]) == "chess::game::Game"]
+    if len(aggs) != 1:
+        rep.notes.append(f"{rid}: Game::clone does not build one Game literal; clause not decided")
+        rep.rule(rid, 0, 0, True, "not decided")
+        return
+    bb, st = aggs[0]
+    for fld, op in zip(st["rv"]["fields"], st["rv"]["ops"]):
+        n += 1
+        e = b.expr(op, expand_named=True, at=bb)
+        src = [x[2] for x in walk(e) if isinstance(x, tuple) and len(x) == 3 and x[0] == "field" and isinstance(x[2], str) and isinstance(deep_strip(x[1]), tuple) and deep_strip(x[1])[:2] == ("arg", 1)]
+        good = src == [fld]
+        rep.obligation(good)
+        if not good:
+            ok = False
+            rep.violation(rid, f"{rid}/clone/{fld}", f"a copy of a Game gets `{fld}` from `{show(e)[:60]}`, not from the original's `{fld}`" +
+                          (": the search works on copies, so positions of the game are invisible to its repetition test" if fld == "history" else ""), {"fn": b.name, "file": b.file, "line": b.line})
+    rep.rule(rid, n, 9, ok, "copies of a Game carry every field, the history included")
 
 
 def rule_clock(fx, rep):
@@ -459,6 +491,9 @@ def rule_callers(fx, rep):
 
 G = "src/chess/game.rs"
 MUTANTS = [
+    {"name": "copies of the game start with an empty history (seed C17-4b)", "expect": "C11-HISTORY/clone/history",
+     "edits": [(G, "#[derive(Debug, Clone)]\npub struct Game {", "#[derive(Debug)]\npub struct Game {"),
+               (G, "impl Game {\n", "impl Clone for Game {\n    fn clone(&self) -> Self {\n        Self {\n            player: self.player,\n            board: self.board.clone(),\n            castle_rights: self.castle_rights.clone(),\n            en_passant_target: self.en_passant_target,\n            halfmove_clock: self.halfmove_clock,\n            plies: self.plies,\n            zobrist: self.zobrist.clone(),\n            incremental_eval: self.incremental_eval.clone(),\n            history: Vec::new(),\n        }\n    }\n}\n\nimpl Game {\n")]},
     {"name": "draw tests moved below the hash probe (seed C11-4a)", "expect": "C11-CALLERS/after-probe",
      "edits": [("src/engine/search/negamax.rs", "    if !is_root\n        && (game.is_repeated_position()\n            || game.is_stalemate_by_fifty_move_rule()\n            || game.is_stalemate_by_insufficient_material())\n    {\n        return Ok(Eval::DRAW);\n    }\n", ""),
                ("src/engine/search/negamax.rs", "    let tb_cardinality = ctx.tablebase.n_men();", "    if !is_root\n        && (game.is_repeated_position()\n            || game.is_stalemate_by_fifty_move_rule()\n            || game.is_stalemate_by_insufficient_material())\n    {\n        return Ok(Eval::DRAW);\n    }\n\n    let tb_cardinality = ctx.tablebase.n_men();")]},
